@@ -320,6 +320,33 @@ CHECKS = {
              "lemmas) + byte-level differential correspondence of calldata and fail-over outcomes against a real adaptor on "
              "in-process JSON-RPC endpoints",
    ref="5/C19"),
+ "C18": dict(
+   text="Coq theorems over Models/FirstEvent.v (firstEvent over the merged stream of all websocket endpoints, identity = the hashed "
+        "bytes data ++ minimal big-endian block number): for EVERY merged stream - any interleaving of any number of endpoints, "
+        "duplicates, removed re-emissions before or after the real log - the delivered identities are exactly those of the logs "
+        "not flagged removed (C18_delivered_exactly), each once (C18_delivered_once), never a removed one "
+        "(C18_removed_never_delivered); two merged streams with the same non-removed identities deliver the same identities, so an "
+        "endpoint that fails does not matter while another carries the history (C18_interleaving_independent); the hashed bytes "
+        "determine (data, block) for ABI-encoded data and 64-bit block numbers (C18_identity_injective). Field fidelity "
+        "statically: Gen/EventTable.v is REGENERATED on every run from eth_subscribe.go's translation blocks, the bindings' event "
+        "structs, eventMsg.go and the node's subscription list, and C18_translation_blocks_faithful checks by vm_compute that each "
+        "block of a subscribed event fills every field of the delivered value exactly once from a field of the event, a node field "
+        "bearing an event field's name from that very field, and the common part (tx, block, removed flag, raw log) canonically. "
+        "Tie: a REAL ethAdaptor (Connect + SubscribeEvent for the node's seven event types) on 1..3 in-process WebSocket / "
+        "JSON-RPC endpoints that emit a generated log history (fields 0, 2^256-1, empty and long strings, member lists of 0..60 "
+        "addresses) each in its own order with independent delays, duplicates, removed-flag copies, logs only ever flagged "
+        "removed, and one endpoint dropping its connection at a random point; every delivered value is matched field by field "
+        "against the independent ABI decoding of the emitted logs (go-ethereum UnpackIntoMap) and judged: each live log once, "
+        "nothing removed, nothing else; the delivered set is compared with the extracted model run on the emitted streams.",
+   note=TB + "Hypotheses: SHA-256 collision freedom; distinct logs of the contracts differ in data or block number (each carries a "
+        "unique request / group / round id; none has indexed fields). The 25-minute expiry of the visited set is outside the "
+        "model ('within the de-duplication window'); its delete from a timer goroutine races with the loop's map accesses "
+        "(a data race the model cannot exhibit; recorded in DESIGN.md). The translation of events the node does not subscribe to "
+        "is reported but not judged (LogGroupingInitiated copies no field).",
+   technique="Coq proof (induction over the merged stream with the visited set; injectivity of the identity encoding) + "
+             "computed check of the regenerated translation table + differential correspondence and ABI-decoding judge on a real "
+             "adaptor fed by in-process WebSocket endpoints",
+   ref="5/C18"),
  "C15": dict(
    text="Coq theorems over the Gallina model of writeTo/readFrom (Models/Framing.v) where a connection is an arbitrary list of "
         "chunks: for every list of payloads of 1..2^20 bytes and EVERY chunking of the concatenated frames the reader returns "
@@ -335,7 +362,7 @@ CHECKS = {
 NOT_YET = {
 }
 
-PENDING = ["C01","C02","C03","C04","C05","C06","C07","C08","C10","C11","C13","C15","C18","C19","C20"]
+PENDING = ["C01","C02","C03","C04","C05","C06","C07","C08","C10","C11","C13","C15","C19","C20"]
 
 def main():
     checks = []
